@@ -35,6 +35,10 @@ def run(ctx):
     ctx.rule('C12.f-repacked-is-exposed', 'the range of shards converted back from the working layout is exactly the range the accessor exposes, so every exposed shard has its plain byte layout (clause shared with C04.c)')
     from . import c04 as c04_
     ctx.guard('C12.analysable', ctx.shared, {'C04.c-range-agreement': 'C12.f-repacked-is-exposed'}, c04_.range_agreement, ctx, ctx.facts(cfgs[0]), cfgs[0])
+    ctx.rule('C12.i-store-geometry-rewritten', 'the shard store rewrites its whole geometry (every field, on every path) at each resize: the length the accessors cut to and the split of the last block are those of the current configuration (clause shared with C04.d)')
+    ctx.guard('C12.analysable', c04_.store_resize_complete, ctx, ctx.facts(cfgs[0]), cfgs[0], 'C12.i-store-geometry-rewritten')
+    ctx.rule('C12.h-repacked-exactly-once', 'the conversion back from the working layout runs exactly once, last, on every path that produces a result: run twice (or not at all) it leaves the exposed shards in a mixed layout for some shard sizes (clause shared with C04.b)')
+    ctx.guard('C12.analysable', ctx.shared, {'C04.b-unencode-once-last': 'C12.h-repacked-exactly-once'}, c04_.unencode, ctx, ctx.facts(cfgs[0]), cfgs[0])
     ctx.rule('C12.g-round-input-fully-defined', 'what a round hands to its truncated transforms is fully written in that round (tail zeroed): the recovery shards of a new round on the same object do not depend on the round before (clause shared with C05.c)')
     from . import c05 as c05_
     ctx.guard('C12.analysable', ctx.shared, {'C05.c-truncated-ifft-zeroed': 'C12.g-round-input-fully-defined'}, c05_.ifft_rule, ctx, ctx.facts(cfgs[0]), cfgs[0])
